@@ -677,3 +677,46 @@ def run_reclaim(prog, rep):
     if n < 4:
         raise AnalysisBroken('R-RECLAIM: only %d reclaim sites found' % n)
     return rule
+
+
+def run_type_gate(prog, rep):
+    """a front-end function that resizes the stored data and then writes caller data of element type dtype has compared
+    dtype with the stored element type before the resize (libhdf5 refuses text <-> number only at the write, after the resize)"""
+    rule = rep.rule('R-TYPEGATE', 'resize-then-write entry points (DataSet::setData(value), DataArray::appendData) compare the element type of the data with dataType() before they resize', floor=2)
+    sem = Sem(prog)
+    seen = set()
+    n = 0
+    for f in sorted(prog.funcs.values(), key=lambda f: (f.file, f.line, f.q)):
+        if f.body is None or not f.q.startswith('nix::') or f.q.startswith('nix::hdf5') or (f.file, f.line) in seen:
+            continue
+        rs = [c for c in f.calls() if (c.callee or {}).get('name') == 'dataExtent' and len([a for a in real_args(c) if a is not None]) == 1]
+        ws = [c for c in f.calls() if (c.callee or {}).get('name') in ('setData', 'ioWrite', 'setDataDirect', 'write')]
+        if not rs or not [w for w in ws if w.id > rs[0].id]:
+            continue
+        seen.add((f.file, f.line))
+        n += 1
+        facts = sem.facts_at(f, rs[0].id)
+        gate = [t for t, pol in facts if 'dataType' in repr(t) and ("'dtype'" in repr(t) or 'element_data_type' in repr(t))]
+        rule.check(bool(gate), '%s|type-before-resize' % re.sub(r'<.*', '', f.q), rep.where(rs[0]), f.label(), 'the element type of the data is compared with dataType() before the resize',
+                   'the data is resized before anything compares the element type of the caller\'s data with the stored element type: text for a numeric array (or the reverse) is refused by libhdf5 only at the write, and the array stays resized')
+    if n < 2:
+        raise AnalysisBroken('R-TYPEGATE: only %d resize-then-write entry points found' % n)
+    return rule
+
+
+def run_rank_gate(prog, rep):
+    """BlockHDF5::createDataArray refuses what H5Screate_simple would refuse (rank 0, rank above H5S_MAX_RANK) before the array group exists"""
+    rule = rep.rule('R-RANKGATE', 'BlockHDF5::createDataArray bounds the rank of the shape (0 < rank <= H5S_MAX_RANK) before it creates the array group', floor=1)
+    sem = Sem(prog)
+    f = prog.fn('nix::hdf5::BlockHDF5::createDataArray')
+    og = [c for c in f.calls(name='openGroup')]
+    if not og:
+        raise AnalysisBroken('R-RANKGATE: group creation not found in BlockHDF5::createDataArray')
+    facts = sem.facts_at(f, og[0].id)
+    shape = [p['name'] for p in f.params if 'NDSize' in p['type']][0]
+    lower = any(isinstance(t, tuple) and t[0] == 'b' and shape in repr(t) and 'size' in repr(t) and ((t[1] == '==' and pol is False and ('k', 0) in t) or (t[1] == '>' and pol is True and ('k', 0) in t)) for t, pol in facts)
+    upper = any(isinstance(t, tuple) and t[0] == 'b' and shape in repr(t) and 'size' in repr(t) and t[1] in ('>', '>=', '<', '<=') and ('H5S_MAX_RANK' in repr(t) or "('k', 32" in repr(t)) and
+                ((t[1] in ('>', '>=') and pol is False) or (t[1] in ('<', '<=') and pol is True)) for t, pol in facts)
+    rule.check(lower and upper, 'BlockHDF5::createDataArray|rank', rep.where(og[0]), f.label(), '0 < rank <= H5S_MAX_RANK established before the group is created',
+               'the array group is created without %s: libhdf5 refuses the data space afterwards and the empty array stays in the file' % ('a lower bound on the rank' if not lower else 'an upper bound on the rank (H5S_MAX_RANK)'))
+    return rule
